@@ -26,6 +26,10 @@ ROOT = os.path.join(harness.CACHE, "regress")
 ALSO = {
     "C14-m2": ["C19"],     # loader task ids reused: a C19 rule (ids-monotonic)
     "C10-m2": ["C09", "C10"],
+    # string-prefix fast path in nitrogql_utils::relative_path, written as a C06 mutation (wrong `sources`): the defect is in the
+    # path function, which C20's rules are about
+    "C06-r4m3": ["C06", "C20"],
+    "C06-r5m2": ["C06", "C20"],
 }
 
 
